@@ -4,7 +4,7 @@ one action per public call, each doing to the heap what the `Cowable::*_parts` f
 Conformance: harness/src/bin/c14.rs runs TLC-generated and random programs on the real code under a
 counting allocator and logs allocator calls, Arc strong counts, element clone/drop counters and the
 content read back after every call; TraceCowOwnership.tla compares every one of them with the spec."""
-import json, os
+import json, os, re, shutil
 import vlib
 
 SPEC = "CowOwnership"
@@ -101,6 +101,90 @@ def run_and_validate(chk, mode_args, what, env):
     chk.cov["traces_validated_against_impl"] += n
     chk.cov["distinct_nontrivial"] += summ.get("distinct_programs", 0)
     return summ
+
+
+NEG_PROGRAMS = {
+    "const_str_local": """
+fn main() {
+    let s = String::from("local string, dropped before use");
+    let c: metrics::SharedString = metrics::SharedString::const_str(&s);
+    drop(s);
+    println!("{}", &*c);
+}
+""",
+    "keyname_from_const_str_local": """
+fn main() {
+    let s = String::from("local name");
+    let n = metrics::KeyName::from_const_str(&s);
+    drop(s);
+    println!("{}", n.as_str());
+}
+""",
+    "label_from_static_parts_local": """
+fn main() {
+    let k = String::from("k");
+    let v = String::from("v");
+    let l = metrics::Label::from_static_parts(&k, &v);
+    drop(k);
+    drop(v);
+    println!("{} {}", l.key(), l.value());
+}
+""",
+    "key_from_static_name_local": """
+fn main() {
+    let s = String::from("local key name");
+    let k = metrics::Key::from_static_name(&s);
+    drop(s);
+    println!("{}", k.name());
+}
+""",
+}
+
+
+def negative_compile(chk):
+    """Programs in which a borrowed value outlives a local String: every one must be rejected by the borrow checker.
+    Compiled with rustc against the `metrics` rlib the harness build just produced from the repo's working tree (path taken
+    from cargo's own build messages). Returns (programs, rejected) or raises ToolError."""
+    rc, out, _ = vlib.sh(["cargo", "build", "--offline", "--bin", "c14", "--message-format=json"], timeout=1200, cwd=vlib.HARNESS,
+                         env={"CARGO_NET_OFFLINE": "true"})
+    rlib = None
+    for line in out.splitlines():
+        if not line.startswith("{"):
+            continue
+        try:
+            m = json.loads(line)
+        except Exception:
+            continue
+        if m.get("reason") == "compiler-artifact" and m.get("target", {}).get("name") == "metrics" and "lib" in m["target"].get("kind", []):
+            for f in m.get("filenames", []):
+                if f.endswith(".rlib"):
+                    rlib = f
+    if rc != 0 or not rlib:
+        raise vlib.ToolError("cannot locate the metrics rlib of the harness build: " + out[-800:])
+    deps = os.path.dirname(rlib)
+    d = chk.path("negc14")
+    os.makedirs(d, exist_ok=True)
+
+    def rustc(name, src):
+        f = os.path.join(d, name + ".rs")
+        open(f, "w").write(src)
+        return vlib.sh(["rustc", "--edition", "2021", "--crate-type", "bin", "--cfg", "metrics_verif", "-L", "dependency=" + deps,
+                        "--extern", "metrics=" + rlib, "-o", os.path.join(d, name + ".bin"), f], timeout=600, cwd=vlib.HARNESS)
+
+    # the control must compile: the toolchain and the rlib fit together
+    rc, out, _ = rustc("control", 'fn main() { let c = metrics::SharedString::const_str("static"); println!("{}", &*c); }\n')
+    if rc != 0:
+        raise vlib.ToolError("negative-compile control does not build: " + out[-1500:])
+    rejected = 0
+    for name, src in NEG_PROGRAMS.items():
+        rc, out, _ = rustc(name, src)
+        if rc != 0 and re.search(r"error\[E0(597|505|716|521)\]", out):
+            rejected += 1
+        elif rc != 0:
+            raise vlib.ToolError("negative-compile program %s fails for another reason: %s" % (name, out[-1500:]))
+        else:
+            chk.log("negative-compile program %s was ACCEPTED by the compiler" % name)
+    return len(NEG_PROGRAMS), rejected
 
 
 def run(chk):
@@ -204,6 +288,12 @@ def run(chk):
         chk.cov["samples"].append({"source": "recorded run (first events)", "events": head})
     except Exception:
         pass
+    # the lifetime contract behind the model's Borrowed values (compile-time observation, judged by the trace spec)
+    programs, rejected = negative_compile(chk)
+    api = chk.path("api.ndjson")
+    open(api, "w").write(json.dumps({"ev": "reset", "fcap": 0, "esz": 1, "hdr": 16, "al": 8, "cnt": 0, "hel": 0}) + "\n" + json.dumps({"ev": "api", "programs": programs, "rejected": rejected}) + "\n")
+    chk.cov["traces_validated_against_impl"] += vlib.validate_concat(chk, SPEC, "TraceCowOwnership", "TraceCowOwnership.cfg", api, "borrowed values cannot outlive their referent (negative compile)", None, timeout=600)
+    chk.notes["negative_compile"] = {"programs": programs, "rejected": rejected}
     chk.cov["rule"] = ("exhaustive TLC over every operation sequence (unbounded length for <= 3 cows / lengths {0,1}; bounded length "
                        "for richer constants); implementation runs = every TLC program of length 2 per domain (length 3 for the slice domain in thorough) + "
                        "TLC -simulate programs of 20 operations + seeded random programs of 8..28 operations + real-parallel runs; "
